@@ -23,6 +23,8 @@ func init() {
 			c.run("C11-R10", "PAIR: size-probing hand-shake — initial size, cancellable wait, token released on every init-phase ack", c11BufInit)
 			c.run("C11-R11", "CONTRADICTION: no loop whose only exit test is loop-invariant", c11LoopProgress)
 			c.run("C11-R8", "PAIR: every mutex acquired is released on every path out of the function", c11Mutex)
+			c.run("C11-R12", "LAUNCH: pipeline stages and the transfer's input pump are started with go", c11Launch)
+			c.run("C11-R13", "TYPESTATE: no send after close; a channel its launcher waits on is closed as the worker's last action", func(c *Ctx) { noSendAfterClose(c); completionClosedLast(c, "", 3) })
 			c.run("C11-R7", "GUARD-DOM (shared with C02-7): a source that ends before its announced length is an error, not a silent wait or spin", c02ShortSource)
 		})
 }
